@@ -123,6 +123,9 @@ func cmdCheck(args []string) int {
 	if !quick {
 		timeout = 60
 	}
+	if v, err := strconv.Atoi(os.Getenv("GOVC_TIMEOUT")); err == nil && v > 0 {
+		timeout = v // testing aid (exercises the retry pass); the registered commands do not set it
+	}
 	// 1. contracts first: they tell which packages to load
 	ss := LoadSpecs(repoDir, modPath, contractsDir)
 	pkgSet := map[string]bool{}
